@@ -1,6 +1,6 @@
 """C08 Preserved names survive, within a file and across files."""
 from pyvc.tables import run_gen
-from contracts import x_safe_preserve, c_preserve_guards, c_rename
+from contracts import x_safe_preserve, c_preserve_guards, c_rename, x_preserve_files
 from standins import c07_surface
 
 
@@ -10,7 +10,9 @@ def units():
 
 def extra(tier, seed):
     return [run_gen("main.format_code/safe", ("C07", "C08"), x_safe_preserve.generate, tier == "thorough"),
-            run_gen("preserving-rules/refusals", ("C07", "C08"), c_rename.gen_preserve_refusals, tier == "thorough")]
+            run_gen("preserving-rules/refusals", ("C07", "C08"), c_rename.gen_preserve_refusals, tier == "thorough"),
+            run_gen("main._used_names_in_file/access-forms", ("C08",), x_preserve_files.gen_used_names, tier == "thorough"),
+            run_gen("main.format_files/per-file-preserve", ("C08",), x_preserve_files.gen_file_preserve, tier == "thorough")]
 
 
 def standins(tier, seed):
@@ -25,5 +27,5 @@ META = {
                    "preserved files) and the remaining rules are checked by formatting a library with generated clients preserved - through the library API and "
                    "the command line (client only, folder, both files) - and running the client before and after.",
     "trusted_base": ["z3 5.1", "pyvc executor (lenient units)"],
-    "assumptions": ["attribute-name over-approximation of _used_names_in_file is by design", "format_files' preserve computation is bounded only"],
+    "assumptions": ["attribute-name over-approximation of _used_names_in_file is by design", "format_files' preserve computation and _used_names_in_file are evaluated on representatives (table obligations), not proved for all files"],
 }
